@@ -125,7 +125,17 @@ func (g *sgen) expr() string {
 		return fmt.Sprint(1 + g.rng.Intn(9))
 	}
 	read := fmt.Sprintf("tr.R(%d, %s)", g.nid(), v.name)
-	switch g.rng.Intn(4) {
+	switch g.rng.Intn(9) {
+	case 4:
+		return v.name // bare variable: nothing but the variable itself is evaluated
+	case 5:
+		return "-" + v.name
+	case 6:
+		return "-" + read
+	case 7:
+		return fmt.Sprintf("int(int64(%s))", v.name)
+	case 8:
+		return "(" + v.name + ")"
 	case 0:
 		return read
 	case 1:
@@ -162,7 +172,27 @@ func (g *sgen) block(depth int, max int, predeclared ...string) {
 	g.ind--
 }
 
+// constDecl declares a constant or a type that shadows a pool name (readonly afterwards).
+func (g *sgen) constDecl() {
+	name := g.pickName()
+	if g.declaredHere(name) {
+		g.line("tr.E(%d)", g.nid())
+		return
+	}
+	g.declare(name, true)
+	if g.shadows(name) {
+		g.feats["shadow"] = true
+	}
+	g.line("const %s = %d", name, 40+g.rng.Intn(9))
+	g.line("tr.U(%s)", name)
+	g.feats["const-decl"] = true
+}
+
 func (g *sgen) declStmt() {
+	if g.rng.Intn(7) == 0 {
+		g.constDecl()
+		return
+	}
 	name := g.pickName()
 	if g.declaredHere(name) {
 		// redeclaration in the same scope is not legal: assign instead
